@@ -87,7 +87,7 @@ for _spec in dcspec.SPECS:
             continue
         ob('%s/%s' % (_spec, _g),
            marks=['accept', 'reject'] if not (_spec == 'defer' and _g in ('plain', 'defaults', 'alias', 'required')) else ['accept'],
-           budget=(60, 400), per_path=(15, 30), thorough_only=_g not in QUICK[_spec],
+           budget=(60, 400), per_path=(15, 30), thorough_only=_g not in QUICK[_spec], exhaustive=(True, False),
            bounds=bounds_text(_spec, _g, 'Schema') + '; both lookup strategies on the same input',
-           out='combinations of option groups; non-int field types; DataClass base (covered by C05)')(
+           out='combinations of option groups; non-int field types; DataClass base (covered by C05); the thorough key vocabulary (7 / 8 keys) is explored within the budget (solver-driven, every path replayed), not exhausted: the exhaustive claim is the quick vocabulary')(
             (lambda s, g: lambda V: _c06(V, s, g, 'Schema'))(_spec, _g))
